@@ -167,7 +167,7 @@ pub fn record(args: &[String]) {
                 json!({"k": "hash", "value": to_cps(value), "len": len, "out": res(&o), "again": res(&o2)})
             }
             3 => {
-                let len = [1, 2, 5, 7, 10, 20, 100][rng.gen_range(0..7)];
+                let len = [1, 2, 5, 7, 10, 20, 100, 19, 21, 65535, 65536, 100000][rng.gen_range(0..12)];
                 let allow = rng.gen_bool(0.4);
                 let o = eval(&ron, &format!("hash_int(value=bumped_branch, length={len}, allow_leading_zero={allow})"));
                 let o2 = eval(&ron, &format!("hash_int(value=bumped_branch, length={len}, allow_leading_zero={allow})"));
